@@ -112,7 +112,8 @@ class C05(Prop):
         indep = None
         if len(names) > 1 and rng.random() < 0.5:
             indep = dict((k, sorted(rng.sample(range(1, n), rng.randint(1, n - 1)))) for k in names)
-        case = {'formula': f, 'signals': sig_text(sig), 'schedules': scheds, 'indep': indep, 'pastify': pastify}
+        case = {'formula': f, 'signals': sig_text(sig), 'schedules': scheds, 'indep': indep, 'pastify': pastify,
+                'structs': rng.random() < 0.1}
         if rng.random() < 0.35:
             case['interleaved'] = [self.gen_interleaved(rng, sig, names) for _ in range(3)]
         return case
@@ -227,7 +228,11 @@ class C05(Prop):
             self.__dict__.setdefault('_scheds', set()).add((len(sig[names[0]]), repr(sorted(sched.items(), key=repr))))
             v.info['schedules'] = v.info.get('schedules', 0) + 1
             try:
-                outs = run_schedule(text, names, sig, sched, pastify, sd_extra=sd_extra)
+                sdx = sd_extra
+                if label == 'aligned' and case.get('structs') and not ia:
+                    sdx = {'structify': True}           # inputs as fields of one object-typed variable
+                    v.info['class:struct-inputs'] = 1
+                outs = run_schedule(text, names, sig, sched, pastify, sd_extra=sdx)
             except Exception as e:
                 if all(x != x for x in exp.vs):
                     v.skip = 'raised on a completely NaN-tainted formula'
